@@ -3,6 +3,7 @@ package main
 import (
 	"fmt"
 	"go/types"
+	"regexp"
 	"sort"
 	"strings"
 
@@ -578,6 +579,23 @@ func newValueTable(c *Ctx, rule string) {
 	}
 	got := map[string]bool{}
 	for _, rc := range p.successResults(nv) {
+		// an arm may hand a converted value back to NewValue (`return NewValue(float64(val))`): that is the
+		// row of the argument's type with the argument in place of the switched value
+		if call, _ := callOf(effectiveResults(rc.Ret)[0]); call != nil && call.Call.StaticCallee() == nv && rc.Inner == nil {
+			if mi, ok := call.Call.Args[0].(*ssa.MakeInterface); ok {
+				arg := p.Render(mi.X)
+				switch shortType(mi.X.Type()) {
+				case "[]*Cell":
+					// (the element construction is elided in the table row; it is checked by fresh-cell below)
+					arg = regexp.MustCompile(`\[&lang\.Cell\{Value: lang\.NewValue\([^⟩]*?\)\}\]\[:\]`).ReplaceAllString(arg, "[&…][:]")
+					got["lang.Value{Tag: ValueArray, Array: "+arg+", Proto: lang.getArrayPrototype()}"] = true
+					continue
+				case "float64":
+					got["lang.Value{Tag: ValueNum, Num: &"+arg+", Proto: lang.getNumPrototype()}"] = true
+					continue
+				}
+			}
+		}
 		got[rc.Value] = true
 	}
 	miss, extra := diffSets(got, setOf(want))
